@@ -45,6 +45,9 @@ func verifHas(l []table.FileNumber, n table.FileNumber) bool {
 	return false
 }
 
+// thorough: the same threads under pre-emption bound 3 (time-boxed)
+func verifC02Snapshots3() { verifC02Snapshots() }
+
 func verifC02Snapshots() {
 	verifInstallFS()
 	vs, fv, err := verifOpen(verifStoreDir())
